@@ -11,7 +11,7 @@ CHECKS = {
     ),
     "C02": dict(
         technique="property-based testing with a validity-predicate oracle over the parsed output (static path resolution of every nodeset/ref against the primary instance) plus name-collision mutations",
-        text="Generated-input search over random forms with many generated helper nodes and a 25% share of deliberately colliding names; every bind/control/repeat/action path must resolve to exactly one instance node, siblings unique, no node bound twice, no two controls per ref, template copies shaped like live copies; colliding forms must be rejected or still unambiguous.",
+        text="Generated-input search over random forms with many generated helper nodes and a 25% share of deliberately colliding names; every bind/control/repeat/action path must resolve to exactly one instance node, siblings unique, no node bound twice, no two controls per ref, exactly one live and one jr:template copy of every repeat node, shaped alike; a value-changed action targets the row that has the trigger cell; colliding forms (same names, helper names, line-feed twins, the legacy flat setting, path-setting attribute columns) must be rejected or still unambiguous.",
         design_ref="DESIGN.md §4 C02",
         note="Static resolution of the path shapes pyxform emits (/a/b, /a/b/@x); templates removed before resolving.",
     ),
@@ -29,9 +29,9 @@ CHECKS = {
     ),
     "C03": dict(
         technique="bounded-exhaustive enumeration of referrer/target container layouts x cell kinds plus Hypothesis random forms; oracle = reference model of the instance tree + static path resolver (each substituted token must reach the target; relative where the statement demands; current() in predicates), and missing/ambiguous-name mutations",
-        text="Every layout of group/repeat containers around a referrer and a target up to depth 3 (quick) or 4 (thorough) is converted for 16 cell kinds; random forms add several references per expression, indexed-repeat, instance(), pulldata, last-saved, references to enclosing repeats and name-prefix clashes. Exhaustive only over the layout sub-space.",
+        text="Every layout of group/repeat containers around a referrer and a target up to depth 3 (quick) or 4 (thorough) is converted for 16 cell kinds; random forms add several references per expression, indexed-repeat, instance(), pulldata, last-saved, references to enclosing repeats and name-prefix clashes, nested predicates and parentheses, select-from-repeat itemsets with filters (three layouts), and the rules that indexed-repeat() field/group arguments are absolute, that a relative path never climbs above the shared repeat instance, and that instance('__last-saved') is declared whenever it is referred to. Exhaustive only over the layout sub-space.",
         design_ref="DESIGN.md §4 C03",
-        note="XPath is not evaluated over data; reaching the target is decided by static resolution of the path shapes pyxform emits. Six genuine defects found here were fixed in /repo.",
+        note="XPath is not evaluated over data; reaching the target is decided by static resolution of the path shapes pyxform emits. Genuine defects found here were fixed in /repo (DESIGN.md 13.2).",
     ),
     "C04": dict(
         technique="property-based testing against a reference model (abstract tree -> expected instance and body trees, restated type table)",
@@ -89,7 +89,7 @@ CHECKS = {
     ),
     "C06": dict(
         technique="property-based testing with an adversarial text alphabet: per-channel round-trip oracle (parser-recovered text == source cell modulo documented normalisations) and a metamorphic skeleton-invariance oracle (same form with benign text must give the same element/attribute-name tree)",
-        text="Random small forms with every text-bearing channel filled with XML metacharacters, entity/CDATA/comment fragments, quotes, braces, astral/RTL/NBSP/ZWJ characters and significant whitespace, with and without embedded references, in 0-3 languages; the run is inconclusive (exit 2) if any channel was never exercised.",
+        text="Random small forms with every text-bearing channel filled with XML metacharacters, entity/CDATA/comment fragments, quotes, braces, astral/RTL/NBSP/ZWJ characters and significant whitespace, with and without embedded references, in 0-3 languages; attribute-borne text (messages, custom attributes, version) must come back exactly, TAB/LF/CR included; a form may not be refused because of its text (compared with the same form with benign text); a share of forms runs with clean_text_values=no. The run is inconclusive (exit 2) if any channel was never exercised.",
         design_ref="DESIGN.md §4 C06",
         note="Characters XML 1.0 cannot represent are outside this alphabet (see C01 edge probes). The literal label '-' is indistinguishable from the itext placeholder by design.",
     ),
@@ -101,9 +101,9 @@ CHECKS = {
     ),
     "C12": dict(
         technique="property-based differential testing: each generated workbook is rendered as md, csv, xlsx/xlsm (openpyxl) and xls (own BIFF8 writer) with generated cell-typing and layout noise and delivered through generated channels; (xform, warnings, itemsets) must be byte-equal to the dict rendering of the canonical text",
-        text="Random forms with planted number/boolean-looking cells x 5 containers x 6 delivery channels x explicit/implicit file_type x spreadsheet noise (typed int/integral float/decimal/bool cells, padding incl. NBSP/tab/newline, inner NBSP, header padding, trailing empty rows/columns, blank-row runs up to 60 and blank-column runs up to 20 with the boundaries weighted). A path delivery must additionally supply the default id from its stem. The run is inconclusive (exit 2) if any container, channel or noise class was never exercised.",
+        text="Random forms with planted number/boolean-looking cells x 5 containers x 6 delivery channels x explicit/implicit file_type x spreadsheet noise (typed int/integral float/decimal/bool cells, padding incl. NBSP/tab/newline, inner NBSP, header padding, trailing empty rows/columns, blank-row runs up to 60 and blank-column runs up to 20 with the boundaries weighted, a remark outside the table); the text containers carry the blank rows, header-less columns and in-text NBSP too, plus a byte order mark and Markdown separator rows; deliveries include a BytesIO left at its end and a NamedTemporaryFile; workbooks with one sheet of any name. A path delivery must additionally supply the default id from its stem. The run is inconclusive (exit 2) if any container, channel or noise class was never exercised.",
         design_ref="DESIGN.md §4 C12",
-        note=".xls files come from our own BIFF8/OLE2 writer (LABEL, LABELSST, NUMBER, RK, MULRK, BOOLERR, BLANK records). Markdown/CSV are compared on the noise-free workbook. Two genuine defects found here were fixed in /repo.",
+        note=".xls files come from our own BIFF8/OLE2 writer (LABEL, LABELSST, NUMBER, RK, MULRK, BOOLERR, BLANK records). Genuine defects found here were fixed in /repo (DESIGN.md 13.2).",
     ),
     "C17": dict(
         technique="property-based mutation testing (valid generated form x catalogued breaking operator x generated site; oracle = PyXFormError + planted-token substring + [row : n] when pyxform's own parse stage raises + message-shape agreement with the same operator on a 3-row form) plus grammar-based fuzzing with XLSForm vocabulary soup (oracle = result passing C01's predicate, or PyXFormError)",
